@@ -183,7 +183,7 @@ func (f *gofile) mk(t *Type, tok string, constant bool, depth int) string {
 			return f.mk(c, tok, constant, depth+1)
 		default: // def
 			u := d.Under
-			if constant && (u.K == "func" || u.K == "chan" || u.K == "ifacelit" || u.K == "structlit") {
+			if constant && (u.K == "func" || u.K == "chan" || u.K == "ifacelit") {
 				return fmt.Sprintf("%s(nil)", f.ty(t))
 			}
 			inner := f.mk(u, tok, constant, depth+1)
